@@ -1346,7 +1346,7 @@ func (o *Oracle) stepCreate(r wire.Req) *Fail {
 		if res != -1 {
 			return fail("virtual-write", "CREATE", "CREATE through a virtual-image path %q answered %d, want -1", r.Path, res)
 		}
-		o.wo = sUnknown
+		o.wo, o.woPath = sNone, "" // create-file closes the active write file first, whatever happens next
 		o.cover(r.Op, "virtual-refused")
 		return nil
 	}
@@ -1354,7 +1354,7 @@ func (o *Oracle) stepCreate(r wire.Req) *Fail {
 	for i, t := range targets {
 		if t.missing {
 			if res == -1 {
-				o.wo = sUnknown
+				o.wo, o.woPath = sNone, ""
 				o.cover(r.Op, "escape-missing")
 				return nil
 			}
@@ -1391,7 +1391,7 @@ func (o *Oracle) stepCreate(r wire.Req) *Fail {
 			why = append(why, fmt.Sprintf("%q can be created (parent exists): want 0", t.os))
 		default:
 			if res == -1 {
-				o.wo = sUnknown
+				o.wo, o.woPath = sNone, ""
 				o.cover(r.Op, "noparent")
 				return nil
 			}
